@@ -641,7 +641,11 @@ func (f *Frame) unop(x *ssa.UnOp, st *State) {
 		}
 		f.lockCheck(st, loc, false, x.Pos())
 		v := vc.load(st, loc)
-		f.vals[x] = f.assumeWF(st, v)
+		v = f.assumeWF(st, v)
+		if loc.Kind == LGlobal {
+			v.Glob = strings.TrimPrefix(loc.Root, "G|")
+		}
+		f.vals[x] = v
 	case token.NOT:
 		f.vals[x] = scalar(x.Type(), Not(f.val(x.X).one()))
 	case token.SUB:
@@ -1126,6 +1130,9 @@ func (f *Frame) lookup(st *State, x *ssa.Lookup) {
 		return
 	}
 	mt := x.X.Type()
+	if g := f.val(x.X).Glob; g != "" {
+		f.lockCheck(st, &Loc{Kind: LGlobal, Root: "G|" + g, Path: " (map contents)"}, false, x.Pos())
+	}
 	m := f.val(x.X).one()
 	k := f.val(x.Index).one()
 	dom, _, vals := f.mapComps(mt)
@@ -1150,6 +1157,9 @@ func (f *Frame) mapUpdate(st *State, x *ssa.MapUpdate) {
 	k := f.val(x.Key).one()
 	v := f.val(x.Value)
 	f.oblige(st, "SAFE", "assignment to entry in nil map", x.Pos(), Ne(m, Zero))
+	if g := f.val(x.Map).Glob; g != "" {
+		f.lockCheck(st, &Loc{Kind: LGlobal, Root: "G|" + g, Path: " (map contents)"}, true, x.Pos())
+	}
 	f.mapStore(st, mt, m, k, v, x.Pos())
 }
 
